@@ -42,6 +42,12 @@ def tasks(tier, seed):
         for accept in (None, "one", "half"):
             ts.append({"part": "senders", "threads": nthreads, "accept": accept, "line": False, "bound": (4 if q else 6) if nthreads == 2 else (2 if q else 4),
                        "name": "senders/%d/%s/sync" % (nthreads, accept)})
+    # a connection with a socket timeout on a slow transport (every write call takes 0.6 s, timeout 1 s): waiting for the send lock
+    # takes longer than the timeout
+    for nthreads in (2, 3):
+        for accept in ("one", "half"):
+            ts.append({"part": "senders", "threads": nthreads, "accept": accept, "line": False, "bound": 4 if nthreads == 2 else 2, "timeout": 1.0,
+                       "send_delay": 0.6, "name": "senders/%d/%s/slow+timeout" % (nthreads, accept)})
     for accept in (None, "one"):
         for k in range(8):
             ts.append({"part": "senders", "threads": 2, "accept": accept, "line": True, "bound": 2 if q else 4, "shard": [k, 8, 2], "name": "senders/2/%s/line/%d" % (accept, k)})
@@ -113,15 +119,18 @@ class ShortHarness:
 def make_conn(ch, d, stream=None):
     lib.reset_globals()
     env.install_urandom("counter")
-    sc = S.Sched(ch, line_level=d.get("line", False), horizon=100.0, max_steps=20000, preempt_cost=2, tie_cost=1)
+    sc = S.Sched(ch, line_level=d.get("line", False), horizon=100.0 + 1000 * d.get("send_delay", 0.0), max_steps=20000, preempt_cost=2, tie_cost=1)
     S.install(sc)
     net = tnet.TNet([])
     sock = tnet.TSock(net, 0)
     sock.address = ("192.0.2.1", 80)
     sock.send_accept = d.get("accept")
+    sock.send_delay = d.get("send_delay", 0.0)
     ws = lib.websocket.WebSocket()
     ws.sock = sock
     ws.connected = True
+    if d.get("timeout") is not None:
+        ws.settimeout(d["timeout"])
     if stream is not None:
         sock.inbox.append([0.0, "data", stream])
         sock.inbox.append([0.0, "eof", b""])
